@@ -52,7 +52,7 @@ VOCQ = [M.TEXT, M.BGROUP, M.EGROUP, M.BREPEAT_COUNT, M.EREPEAT, M.SELECT_OTHER, 
 
 def c02_seq3(k0: int, i1: int, i2: int, l0: int, l1: int) -> bool:
     """
-    vpre: 0 <= i1 <= 6 and 0 <= i2 <= 6
+    vpre: 0 <= i2 <= 6
     vpre: 33 <= l0 <= 126 and l0 != 36 and 33 <= l1 <= 126 and l1 != 36
     vpost: _ == True
     """
@@ -63,13 +63,14 @@ specialise(
     "C02",
     "a.closure-seq",
     c02_seq3,
-    {"k0": VOCQ},
-    timeout=500,
+    {"k0": VOCQ, "i1": list(range(7))},
+    reach_if=lambda fx: fx["i1"] == 0,
+    timeout=300,
     kernel=K,
     shims=("S1", "S2", "S3", "S4"),
-    symbolic="two row kinds over a 7-kind vocabulary (text, begin/end group, repeat with literal count (_count helper), end repeat, select or_other (_other helper), triggered calculate) and a 2-character label tracer",
-    bounds="row 0 is a text question (trigger source), row 1 kind fixed per instance, rows 2-3 symbolic: all 7^3 sequences after the first row",
-    weight=150,
+    symbolic="one row kind over a 7-kind vocabulary (text, begin/end group, repeat with literal count (_count helper), end repeat, select or_other (_other helper), triggered calculate) and a 2-character label tracer",
+    bounds="row 0 is a text question (trigger source), rows 1-2 fixed per instance, row 3 symbolic: all 7^3 sequences after the first row",
+    weight=40,
 )
 
 
@@ -146,12 +147,10 @@ def _child_named_at(parent, idx, name):
 
 def c02_names(shape: int, a0: int, a1: int, b0: int, b1: int, c0: int, c1: int, d0: int, d1: int) -> bool:
     """
-    vpre: (97 <= a0 <= 122 or a0 == 95) and (97 <= a1 <= 122 or 48 <= a1 <= 57 or a1 == 45 or a1 == 46)
-    vpre: (97 <= b0 <= 122 or b0 == 95) and (97 <= b1 <= 122 or 48 <= b1 <= 57 or b1 == 45 or b1 == 46)
-    vpre: (97 <= c0 <= 122 or c0 == 95) and (97 <= c1 <= 122 or 48 <= c1 <= 57 or c1 == 45 or c1 == 46)
-    vpre: (97 <= d0 <= 122 or d0 == 95) and (97 <= d1 <= 122 or 48 <= d1 <= 57 or d1 == 45 or d1 == 46)
-    vpre: not (a0 == b0 and a1 == b1) and not (a0 == c0 and a1 == c1) and not (a0 == d0 and a1 == d1)
-    vpre: not (b0 == c0 and b1 == c1) and not (b0 == d0 and b1 == d1) and not (c0 == d0 and c1 == d1)
+    vpre: 97 <= a0 <= 122 and 97 <= a1 <= 122 and 97 <= b0 <= 122 and 97 <= b1 <= 122
+    vpre: 97 <= c0 <= 122 and 97 <= c1 <= 122 and 97 <= d0 <= 122 and 97 <= d1 <= 122
+    vpre: a0 * 256 + a1 != b0 * 256 + b1 and a0 * 256 + a1 != c0 * 256 + c1 and a0 * 256 + a1 != d0 * 256 + d1
+    vpre: b0 * 256 + b1 != c0 * 256 + c1 and b0 * 256 + b1 != d0 * 256 + d1 and c0 * 256 + c1 != d0 * 256 + d1
     vpost: _ == True
     """
     names = [S(a0, a1), S(b0, b1), S(c0, c1), S(d0, d1)]
@@ -191,7 +190,7 @@ specialise(
     timeout=500,
     kernel=K,
     shims=("S1", "S2", "S3", "S4"),
-    symbolic="4 element names of 2 symbolic characters over [a-z_][a-z0-9.-], pairwise distinct",
+    symbolic="4 element names of 2 symbolic characters over [a-z], pairwise distinct",
     bounds="3 fixed layouts (group/repeat/question; repeat/group/question + sibling; two groups), depth 3",
     weight=120,
 )
@@ -200,13 +199,15 @@ specialise(
 # ---- c: ambiguity rejected --------------------------------------------------------------
 
 
-def c02_ambiguity(in_group: bool, between: int, a0: int, a1: int, b0: int, b1: int) -> bool:
+def c02_ambiguity(in_group: bool, between: int, ua0: bool, ua1: bool, ub0: bool, ub1: bool, a0: int, a1: int, b0: int, b1: int) -> bool:
     """
     vpre: 0 <= between <= 2
-    vpre: (65 <= a0 <= 90 or 97 <= a0 <= 122) and (65 <= a1 <= 90 or 97 <= a1 <= 122)
-    vpre: (65 <= b0 <= 90 or 97 <= b0 <= 122) and (65 <= b1 <= 90 or 97 <= b1 <= 122)
+    vpre: 97 <= a0 <= 122 and 97 <= a1 <= 122 and 97 <= b0 <= 122 and 97 <= b1 <= 122
     vpost: _ == True
     """
+    # letter case is chosen by symbolic booleans (contiguous ranges keep preconditions fork-free)
+    a0, a1 = (a0 - 32 if ua0 else a0), (a1 - 32 if ua1 else a1)
+    b0, b1 = (b0 - 32 if ub0 else b0), (b1 - 32 if ub1 else b1)
     A, B = S(a0, a1), S(b0, b1)
     s = Survey(name="data", id_string="x", title="x")
     parent = s
